@@ -24,7 +24,47 @@ import (
 	"strings"
 )
 
-var fields = map[string]bool{"members": true, "typeServices": true, "workingServices": true, "services": true}
+// fields: the fields of struct ClusterServices, read from its declaration (whatever they are called)
+var fields = map[string]bool{}
+
+// roleNames: the directory fields are reported under the ROLE of the builder result stored into them
+// (`a, b, c, d := MakeMembers(..); s.x = a; ...`: x is "members", the field that gets b is "typeServices", ...),
+// so that renaming an unexported field changes no generated fact
+var roleNames = []string{"members", "typeServices", "workingServices", "services"}
+
+// structFields: names and types (as source text of simple shapes) of the fields of `type <name> struct`
+func structFields(files []*ast.File, name string) (names []string, ptrTo map[string]string) {
+	ptrTo = map[string]string{}
+	for _, f := range files {
+		for _, d := range f.Decls {
+			gd, ok := d.(*ast.GenDecl)
+			if !ok {
+				continue
+			}
+			for _, sp := range gd.Specs {
+				ts, ok := sp.(*ast.TypeSpec)
+				if !ok || ts.Name.Name != name {
+					continue
+				}
+				st, ok := ts.Type.(*ast.StructType)
+				if !ok {
+					continue
+				}
+				for _, fl := range st.Fields.List {
+					for _, n := range fl.Names {
+						names = append(names, n.Name)
+						if se, ok := fl.Type.(*ast.StarExpr); ok {
+							if id, ok := se.X.(*ast.Ident); ok {
+								ptrTo[n.Name] = id.Name
+							}
+						}
+					}
+				}
+			}
+		}
+	}
+	return
+}
 
 func overlayMap() map[string]string {
 	m := map[string]string{}
@@ -172,6 +212,25 @@ func main() {
 	}
 	cs := parse("node/app/clusterservices.go")
 	cl := parse("node/app/cluster.go")
+	var appFiles []*ast.File
+	for _, fp := range pkgFiles("node/app") {
+		rel, _ := filepath.Rel(*repo, fp)
+		appFiles = append(appFiles, parse(rel))
+	}
+	csNames, _ := structFields(appFiles, "ClusterServices")
+	for _, n := range csNames {
+		fields[n] = true
+	}
+	// the Cluster's directory field: the field of struct Cluster of type *ClusterServices
+	csField := "clusterServices"
+	if names, ptrTo := structFields(appFiles, "Cluster"); len(names) > 0 {
+		for _, n := range names {
+			if ptrTo[n] == "ClusterServices" {
+				csField = n
+			}
+		}
+	}
+	canon := map[string]string{} // field of ClusterServices -> role name
 
 	methods := map[string]*method{}
 	builderName := ""
@@ -190,6 +249,7 @@ func main() {
 				// and assigns a plain variable defined by that call
 				callIdx, firstStore := -1, -1
 				defined := map[string]bool{}
+				position := map[string]int{}
 				plain := true
 				for i, st := range fd.Body.List {
 					as, ok := st.(*ast.AssignStmt)
@@ -201,9 +261,10 @@ func main() {
 							if id, ok := c.Fun.(*ast.Ident); ok && callIdx < 0 && firstStore < 0 {
 								callIdx = i
 								builderName = id.Name
-								for _, l := range as.Lhs {
+								for k, l := range as.Lhs {
 									if id, ok := l.(*ast.Ident); ok {
 										defined[id.Name] = true
+										position[id.Name] = k
 									}
 								}
 								continue
@@ -220,6 +281,10 @@ func main() {
 									plain = false
 								} else if id, ok := as.Rhs[j].(*ast.Ident); !ok || !defined[id.Name] {
 									plain = false
+								} else if k := position[id.Name]; k < len(roleNames) {
+									if _, dup := canon[se.Sel.Name]; !dup {
+										canon[se.Sel.Name] = roleNames[k]
+									}
 								}
 							}
 						}
@@ -258,7 +323,7 @@ func main() {
 				continue
 			}
 			seen[f.Name.Name] = true
-			if mentions(f, "ClusterServices") || mentions(f, "clusterServices") || mentions(f, "GetCluster") {
+			if mentions(f, "ClusterServices") || mentions(f, csField) || mentions(f, "GetCluster") {
 				builderPure = false
 			}
 			ast.Inspect(f.Body, func(n ast.Node) bool {
@@ -299,6 +364,16 @@ func main() {
 		}
 		return r
 	}
+	roles := func(xs []string) []string {
+		out := make([]string, len(xs))
+		for i, x := range xs {
+			if c, ok := canon[x]; ok {
+				x = c
+			}
+			out[i] = x
+		}
+		return out
+	}
 	// only the exported methods are listed: unexported helper methods count through their callers
 	var names []string
 	for n := range methods {
@@ -321,7 +396,7 @@ func main() {
 		ast.Inspect(fd.Body, func(n ast.Node) bool {
 			if as, ok := n.(*ast.AssignStmt); ok {
 				for _, l := range as.Lhs {
-					if se, ok := l.(*ast.SelectorExpr); ok && se.Sel.Name == "clusterServices" {
+					if se, ok := l.(*ast.SelectorExpr); ok && se.Sel.Name == csField {
 						reassigned = append(reassigned, fd.Name.Name)
 					}
 				}
@@ -335,7 +410,7 @@ func main() {
 		ast.Inspect(fd.Body, func(n ast.Node) bool {
 			if c, ok := n.(*ast.CallExpr); ok {
 				if se, ok := c.Fun.(*ast.SelectorExpr); ok {
-					if in, ok := se.X.(*ast.SelectorExpr); ok && in.Sel.Name == "clusterServices" {
+					if in, ok := se.X.(*ast.SelectorExpr); ok && in.Sel.Name == csField {
 						if id, ok := in.X.(*ast.Ident); ok && id.Name == rn {
 							calls = append(calls, se.Sel.Name)
 						}
@@ -534,7 +609,7 @@ func main() {
 		if i == len(names)-1 {
 			sep = ""
 		}
-		fmt.Fprintf(&sb, "  (%q, %s)%s\n", n, leanList(total(n, 0)), sep)
+		fmt.Fprintf(&sb, "  (%q, %s)%s\n", n, leanList(roles(total(n, 0))), sep)
 	}
 	sb.WriteString("]\n\n")
 	sb.WriteString("/-- (exported method of ClusterServices, receiver fields it assigns, transitively, source order) -/\n")
@@ -544,7 +619,7 @@ func main() {
 		if i == len(names)-1 {
 			sep = ""
 		}
-		fmt.Fprintf(&sb, "  (%q, %s)%s\n", n, leanList(totalStores(n, 0)), sep)
+		fmt.Fprintf(&sb, "  (%q, %s)%s\n", n, leanList(roles(totalStores(n, 0))), sep)
 	}
 	sb.WriteString("]\n\n")
 	fmt.Fprintf(&sb, "/-- in `(*ClusterServices).MakeMembers` the pure builder is called before the first field store and every store assigns a variable that call defined -/\ndef buildBeforeStores : Bool := %v\n\n", buildBeforeStores)
